@@ -6,6 +6,7 @@ pub struct InvalidLength;
 pub static mut LAST_ROUNDS: u32 = 0;
 pub static mut CALLS: usize = 0;
 pub fn pbkdf2_array<PRF, const N: usize>(password: &[u8], salt: &[u8], rounds: u32) -> Result<[u8; N], InvalidLength> {
+    vmodel::kdf_entry_guard();
     unsafe {
         LAST_ROUNDS = rounds;
         CALLS += 1;
